@@ -675,6 +675,9 @@ CHECKS = {
             dict(name="random", run="TestC09Random", checks=dict(quick=6000, thorough=40000), shards=dict(quick=1, thorough=16)),
             # element strings on both sides of '/', one a prefix of its sibling (sorted order is element-wise); values of every kind incl. uncomparable ones
             dict(name="rich", run="TestC09Rich", checks=dict(quick=6000, thorough=40000), shards=dict(quick=1, thorough=8)),
+            # ownership of the slices/maps crossing the API boundary, both directions: arguments built in re-used buffers (offset, spare capacity) and overwritten after the call,
+            # results kept / rewritten in place / appended to, everything kept re-compared after every later op and at the end of the sequence
+            dict(name="alias", run="TestC09Alias", checks=dict(quick=5000, thorough=40000), shards=dict(quick=1, thorough=8)),
         ],
     ),
 }
@@ -896,6 +899,8 @@ EXT3 = {
                 rule=" owners: a case is one set of scripts x 40 rounds; non-trivial = >=2 owners and the scripts contain both a Reset and a Remove."),
     "C19": dict(level_text=(" Further: what a conversion returned belongs to its caller - the TypedValue returned by FromScalar (leaf-list elements included), the slice returned by ToScalar and the "
                             "index returned by ToStrings (spare capacity included) are overwritten before the same input is converted again, and the second result must equal the first.")),
+    "C03": dict(level_text=(" Further (also in the C02 profile): a structured 'big fan-out' shape, one case in about two hundred: one notification writes 300-4100 sibling leaves, a later one rewrites "
+                            "a few, then a glob / subtree delete whose timestamp lies between the two removes more than a thousand leaves at once and must leave and not announce the newer ones.")),
     "C08": dict(level_text=(" Third structured shape (an eighth of the cases): a POLL client that stops reading and keeps sending 1-300 poll triggers (letting a send pass now and then) against an "
                             "unchanging cache, next to other subscribers: what it is sent after its last trigger is bounded by the distinct matching leaves + the response in flight + one sync marker, "
                             "whatever the number of triggers; or it stays away and the next sleep step judges the send timeout of the POLL subscription.")),
